@@ -31,6 +31,7 @@ fn classes_of(stats: &CaseStats) -> BTreeMap<String, u64> {
     add("with_rotation", stats.rotations > 0);
     add("with_stall_window", stats.stall_windows > 0);
     add("with_single_worker_step_inside_window", stats.worker_steps > 0);
+    add("with_iterator_step_after_a_write", stats.iterator_steps_after_write > 0);
     add("with_same_key_burst", stats.same_key_bursts > 0);
     add("with_read_between_delete_and_ack", stats.reads_in_stall_after_delete > 0);
     add("with_reincarnation", stats.reincarnations > 0);
@@ -62,6 +63,7 @@ pub struct SeqCampaign {
 }
 
 fn nt_c01(s: &CaseStats) -> bool { s.max_used_permille > 500 && (s.evictions + s.rejected_space + s.rejected_weight > 0) }
+fn nt_c02(s: &CaseStats) -> bool { s.iterator_steps_after_write >= 1 && s.hits >= 3 }
 fn nt_c03(s: &CaseStats) -> bool { s.reincarnations >= 1 && s.sweep_after_ttl_change >= 1 && s.sketch_resets >= 1 }
 fn nt_c04(s: &CaseStats) -> bool { s.reads_in_stall_after_delete >= 1 }
 fn nt_c05(s: &CaseStats) -> bool { s.same_key_bursts >= 1 }
@@ -87,6 +89,10 @@ pub fn profile(property: &str) -> GenParams {
         "C01" => {
             params.limits = vec![1, 7, 100, 100, 1000, 1 << 40, i64::MAX];
             params.mix = [40, 20, 10, 8, 1, 5, 8, 2, 10, 3];
+        }
+        "C02" => {
+            params.limits = vec![100, 1000, 4000];
+            params.mix = [25, 20, 12, 30, 12, 4, 10, 2, 8, 3];
         }
         "C03" => {
             params = no_pressure(params);
@@ -184,6 +190,7 @@ pub fn seq_campaigns(property: &str) -> Vec<SeqCampaign> {
             main("seq-main", 3000, 60_000, nt_c01, RULE_C01),
             probe("probe-F5", profile("C01"), Policy { allow_over_limit_upsert: true, ..Policy::default() }),
         ],
+        "C02" => vec![main("seq-read-agreement", 3000, 50_000, nt_c02, "generated histories with many reads: every read variant is compared with the model after every write, all seven variants are applied to the same keys at quiescent points (they must agree), and multi_get iterators are consumed step by step with an awaited write to the next key between two next() calls (each next() must reflect the state at the time it is called); non-trivial = an iterator step after an intervening write and >= 3 hits")],
         "C03" => vec![main("seq-main", 2500, 50_000, nt_c03, RULE_C03)],
         "C04" => vec![main("seq-main", 3000, 50_000, nt_c04, RULE_C04)],
         "C05" => vec![main("seq-main", 3000, 50_000, nt_c05, RULE_C05)],
